@@ -24,8 +24,9 @@ from typing import Any, Callable, Iterable, Optional, Sequence
 
 VERIF = Path(__file__).resolve().parents[2]
 LEAN = VERIF / "lean"
-EVIDENCE = VERIF / "evidence"
-REPLAYS = VERIF / "replays"
+# seeded-mutant runs redirect these so that they never overwrite the evidence of the real tree
+EVIDENCE = Path(os.environ.get("VERIF_EVIDENCE_DIR") or (VERIF / "evidence"))
+REPLAYS = Path(os.environ.get("VERIF_REPLAYS_DIR") or (VERIF / "replays"))
 CORPUS = VERIF / "corpus"
 KNOWN_FINDINGS = VERIF / "known_findings.txt"
 
